@@ -349,10 +349,10 @@ def check_constructor(ctx):
     # nested packets parsed through a Ref also start blank (flag unset)
     rf = repo.cls('Ref')
     w2 = repo.walker()
-    for mname in ('_unpack_referencing_a_packet', '_unpack_using_callable'):
-        fi2 = rf.methods.get(mname)
-        if fi2 is None:
-            continue
+    from ..model import ref_strategies
+    rs = ref_strategies(repo)
+    for fi2 in (rs['unpack_packet'], rs['unpack_callable']):
+        mname = fi2.node.name
         for p in w2.paths(fi2.node, cls=rf):
             if p.raises():
                 continue
